@@ -67,14 +67,14 @@ static void feed(uint8_t st, bool check)
 		sim_probe(P_NEG);
 
 	sim_budget(10000);
-	rotenc_decode(r, st);
+	ONCE(2, rotenc_decode(ARG(r), ARG(st)));
 	nsamples++;
 	sim_ops(1);
 	if (!check)
 		return;
 
-	unsigned c8 = rotenc_count(r);
-	unsigned c14 = rotenc_count14(r);
+	unsigned c8 = ONCE_V(1, rotenc_count(ARG(r)));
+	unsigned c14 = ONCE_V(1, rotenc_count14(ARG(r)));
 	sim_ev("s", st, c8, c14);
 	if (st != 0)
 		sim_probe(P_OFF_DETENT_READ);
